@@ -339,12 +339,27 @@ macro_rules! shapes {
     }};
 }
 
-K! { #[kani::unwind(8)] fn c13_next_peek_q() { shapes!(next_peek; (2,0,1) (0,3,1) (1,1,1) (0,0,0)) } }
-K! { #[kani::unwind(8)] fn c13_pop_except_q() { shapes!(pop_except; (3,1,0) (0,2,2) (1,3,0) (0,0,0)) } }
-K! { #[kani::unwind(8)] fn c13_eat_eq_q() { shapes!(eat; (1,2,1,3,false) (2,0,2,3,false) (0,0,0,2,false)) } }
-K! { #[kani::unwind(8)] fn c13_eat_ci_q() { shapes!(eat; (1,1,0,3,true) (3,1,0,2,true) (0,1,2,2,true)) } }
-K! { #[kani::unwind(8)] fn c13_push_front_q() { shapes!(push_front; (2,1,0,2,1) (1,0,1,0,0)) } }
-K! { #[kani::unwind(8)] fn c13_pop_then_eat_q() { shapes!(pop_then_eat; (2,1,0) (1,0,2)) } }
+
+K! { #[kani::unwind(8)] fn c13_next_peek_q0() { next_peek::<2,0,1>() } }
+K! { #[kani::unwind(8)] fn c13_next_peek_q1() { next_peek::<0,3,1>() } }
+K! { #[kani::unwind(8)] fn c13_next_peek_q2() { next_peek::<1,1,1>() } }
+K! { #[kani::unwind(8)] fn c13_next_peek_q3() { next_peek::<0,0,0>() } }
+K! { #[kani::unwind(8)] fn c13_pop_except_q0() { pop_except::<3,1,0>() } }
+K! { #[kani::unwind(8)] fn c13_pop_except_q1() { pop_except::<0,2,2>() } }
+K! { #[kani::unwind(8)] fn c13_pop_except_q2() { pop_except::<1,3,0>() } }
+K! { #[kani::unwind(8)] fn c13_pop_except_q3() { pop_except::<0,0,0>() } }
+K! { #[kani::unwind(8)] fn c13_eat_eq_q0() { eat::<1,2,1,3,false>() } }
+K! { #[kani::unwind(8)] fn c13_eat_eq_q1() { eat::<2,0,2,3,false>() } }
+K! { #[kani::unwind(8)] fn c13_eat_eq_q2() { eat::<0,0,0,2,false>() } }
+K! { #[kani::unwind(8)] fn c13_eat_ci_q0() { eat::<1,1,0,3,true>() } }
+K! { #[kani::unwind(8)] fn c13_eat_ci_q1() { eat::<3,1,0,2,true>() } }
+K! { #[kani::unwind(8)] fn c13_eat_ci_q2() { eat::<0,1,2,2,true>() } }
+K! { #[kani::unwind(8)] fn c13_push_front_q0() { push_front::<1,2,0,2,0>() } }
+K! { #[kani::unwind(8)] fn c13_push_front_q2() { push_front::<2,0,1,1,0>() } }
+K! { #[kani::unwind(8)] fn c13_push_front_q3() { push_front::<0,0,0,2,0>() } }
+K! { #[kani::unwind(8)] fn c13_push_front_q1() { push_front::<1,0,1,0,0>() } }
+K! { #[kani::unwind(8)] fn c13_pop_then_eat_q0() { pop_then_eat::<2,1,0>() } }
+K! { #[kani::unwind(8)] fn c13_pop_then_eat_q1() { pop_then_eat::<1,0,2>() } }
 
 K! { #[kani::unwind(14)] fn c13_next_peek_t() { shapes!(next_peek; (4,0,1) (0,3,2) (1,4,1) (2,2,2) (3,3,3) (0,0,4)) } }
 K! { #[kani::unwind(14)] fn c13_pop_except_t() { shapes!(pop_except; (4,1,0) (0,4,2) (1,3,4) (2,2,2) (3,0,3)) } }
@@ -354,12 +369,26 @@ K! { #[kani::unwind(14)] fn c13_push_front_t() { shapes!(push_front; (2,1,2,3,1)
 K! { #[kani::unwind(14)] fn c13_pop_then_eat_t() { shapes!(pop_then_eat; (2,1,2) (1,0,3) (3,2,0) (4,1,1) (1,1,1) (0,2,3)) } }
 
 pub const TABLE: &[(&str, fn())] = &[
-    ("c13_next_peek_q", c13_next_peek_q),
-    ("c13_pop_except_q", c13_pop_except_q),
-    ("c13_eat_eq_q", c13_eat_eq_q),
-    ("c13_eat_ci_q", c13_eat_ci_q),
-    ("c13_push_front_q", c13_push_front_q),
-    ("c13_pop_then_eat_q", c13_pop_then_eat_q),
+    ("c13_next_peek_q0", c13_next_peek_q0),
+    ("c13_next_peek_q1", c13_next_peek_q1),
+    ("c13_next_peek_q2", c13_next_peek_q2),
+    ("c13_next_peek_q3", c13_next_peek_q3),
+    ("c13_pop_except_q0", c13_pop_except_q0),
+    ("c13_pop_except_q1", c13_pop_except_q1),
+    ("c13_pop_except_q2", c13_pop_except_q2),
+    ("c13_pop_except_q3", c13_pop_except_q3),
+    ("c13_eat_eq_q0", c13_eat_eq_q0),
+    ("c13_eat_eq_q1", c13_eat_eq_q1),
+    ("c13_eat_eq_q2", c13_eat_eq_q2),
+    ("c13_eat_ci_q0", c13_eat_ci_q0),
+    ("c13_eat_ci_q1", c13_eat_ci_q1),
+    ("c13_eat_ci_q2", c13_eat_ci_q2),
+    ("c13_push_front_q0", c13_push_front_q0),
+    ("c13_push_front_q1", c13_push_front_q1),
+    ("c13_push_front_q2", c13_push_front_q2),
+    ("c13_push_front_q3", c13_push_front_q3),
+    ("c13_pop_then_eat_q0", c13_pop_then_eat_q0),
+    ("c13_pop_then_eat_q1", c13_pop_then_eat_q1),
     ("c13_next_peek_t", c13_next_peek_t),
     ("c13_pop_except_t", c13_pop_except_t),
     ("c13_eat_eq_t", c13_eat_eq_t),
